@@ -262,7 +262,8 @@ Section Solo.
 
   Lemma solo_rot s l s' l' : att c t s (pl_pc l RReadNext) s' l' ->
     s' = rot s l /\ l' = finish (Err AdminAction) l /\
-    ((term_id_of (sh_tail s (next_index l)) =? wrap32 (next_tid l - PARTITION_COUNT)) = true -> forall o, sh_mem s (next_index l) o = zslot).
+    ((term_id_of (sh_tail s (next_index l)) =? wrap32 (next_tid l - PARTITION_COUNT)) = true -> forall o, sh_mem s (next_index l) o = zslot) /\
+    (sh_count s = p_count l -> p_count l + 1 <= GB).
   Proof. intros H. destruct (st_RReadNext s l) as (e1 & S1). destruct (att_cont _ _ _ _ _ _ _ _ _ H S1 eq_refl) as (_ & H1). clear H S1.
     unfold rot, rot_tail. destruct (term_id_of (sh_tail s (next_index l)) =? wrap32 (next_tid l - PARTITION_COUNT)) eqn:E.
     - destruct (st_RCasTail s l (sh_tail s (next_index l))) as (e2 & S2).
@@ -270,12 +271,14 @@ Section Solo.
       rewrite Z.eqb_refl in H2.
       set (s1 := with_tail s (next_index l) (raw_tail_of_term (next_tid l))) in *.
       destruct (st_RCasCount s1 (pl_pc (pl_next l RCasTail (sh_tail s (next_index l))) RCasCount) l eq_refl eq_refl (finish_next _ _ _ _ _)) as (e3 & S3).
-      destruct (att_end _ _ _ _ _ _ _ _ _ H2 S3) as (_ & -> & ->); [apply res_finish_ne; reflexivity|].
-      split; [reflexivity|]. split; [reflexivity|]. intros _.
-      unfold adm_pub in Adm. cbn [p_pc pl_next] in Adm. apply Adm. reflexivity.
+      destruct (att_end _ _ _ _ _ _ _ _ _ H2 S3) as (Adm3 & -> & ->); [apply res_finish_ne; reflexivity|].
+      split; [reflexivity|]. split; [reflexivity|]. split.
+      + intros _. unfold adm_pub in Adm. cbn [p_pc pl_next] in Adm. apply Adm. reflexivity.
+      + unfold adm_pub in Adm3. cbn [p_pc pl_pc] in Adm3. exact Adm3.
     - destruct (st_RCasCount s (pl_next l RCasCount (sh_tail s (next_index l))) l eq_refl eq_refl (finish_next' _ _ _ _)) as (e3 & S3).
-      destruct (att_end _ _ _ _ _ _ _ _ _ H1 S3) as (_ & -> & ->); [apply res_finish_ne; reflexivity|].
-      split; [reflexivity|]. split; [reflexivity|]. intros X. discriminate X. Qed.
+      destruct (att_end _ _ _ _ _ _ _ _ _ H1 S3) as (Adm3 & -> & ->); [apply res_finish_ne; reflexivity|].
+      split; [reflexivity|]. split; [reflexivity|]. split; [intros X; discriminate X|].
+      unfold adm_pub in Adm3. cbn [p_pc pl_next] in Adm3. exact Adm3. Qed.
 
   (* ---- the head of offer_opt and the whole attempt ---- *)
   Lemma st_PReadLimit s l : p_pc l = PReadLimit -> exists e, pstep c t s l = Some (s, pl_limit l (sh_limit s), e).
@@ -319,6 +322,7 @@ Section Solo.
       else
         let d := required c n in
         let s1 := with_tail s p (wrap64 (raw + d)) in
+        lo32u raw + d < two32 /\
         if TL c <? f_off Lf + d then
           exists s2,
             (if f_off Lf <? TL c
@@ -327,7 +331,8 @@ Section Solo.
             (if max_pos c <? r_pos c Lf + wrap32 (r_off Lf) then s' = s2 /\ r = Err MaxPositionExceeded
              else s' = rot s2 Lf /\ r = Err AdminAction /\
                   ((term_id_of (sh_tail s2 (next_index Lf)) =? wrap32 (next_tid Lf - PARTITION_COUNT)) = true ->
-                   forall o, sh_mem s2 (next_index Lf) o = zslot))
+                   forall o, sh_mem s2 (next_index Lf) o = zslot) /\
+                  (sh_count s2 = p_count Lf -> p_count Lf + 1 <= GB))
         else
           let frs := frags_from c (f_tid Lf) (cur_msg l) (Z.to_nat n) (f_off Lf) n F_BEGIN in
           r = ok_position c Lf /\ same_meta s1 s' /\
@@ -353,7 +358,10 @@ Section Solo.
     - destruct (is_fragmented c (mlen L) && (max_msg c <? mlen L)).
       { rewrite FL in S3. destruct (att_end _ _ _ _ _ _ _ _ _ H2 S3) as (_ & -> & ->); [apply res_finish_ne; reflexivity|]. eauto. }
       destruct (att_cont _ _ _ _ _ _ _ _ _ H2 S3 eq_refl) as (_ & H3). clear H2 S3.
-      destruct (st_PFaa s L) as (e4 & S4). change (r_idx L) with (index_by_term_count (sh_count s)) in S4.
+      destruct (st_PFaa s L) as (e4 & S4).
+      assert (Adm : lo32u (sh_tail s (index_by_term_count (sh_count s))) + required c (mlen L) < two32).
+      { destruct (att_inv _ _ _ _ _ _ H3) as (? & ? & ? & A & _). unfold adm_pub in A. cbn [p_pc pl_pc] in A. apply A. }
+      change (r_idx L) with (index_by_term_count (sh_count s)) in S4.
       rewrite (after_faa_eq L PFaa (sh_tail s (index_by_term_count (sh_count s))) eq_refl) in S4. cbv zeta in S4. change (pl_faa L (sh_tail s (index_by_term_count (sh_count s)))) with Lf in S4. change (mlen Lf) with (mlen L) in *.
       set (s1 := with_tail s (index_by_term_count (sh_count s)) _) in *.
       destruct (TL c <? f_off Lf + required c (mlen L)) eqn:Etrip.
@@ -365,17 +373,17 @@ Section Solo.
           change (f_off (pl_pc Lf ENegLen)) with (f_off Lf) in *. change (f_tid (pl_pc Lf ENegLen)) with (f_tid Lf) in *.
           change (r_pos c (pl_pc Lf ENegLen)) with (r_pos c Lf) in *. change (r_off (pl_pc Lf ENegLen)) with (r_off Lf) in *.
           destruct Hcase as [(Emax & -> & ->) | (Emax & H5)]; rewrite Emax.
-          -- exists (Err MaxPositionExceeded). split; [apply finish_ext; reflexivity|]. exists s4. split; [split; assumption | split; reflexivity].
-          -- destruct (solo_rot s4 (pl_pc Lf ENegLen) s' l') as (-> & -> & Hzq).
+          -- exists (Err MaxPositionExceeded). split; [apply finish_ext; reflexivity|]. split; [exact Adm|]. exists s4. split; [split; assumption | split; reflexivity].
+          -- destruct (solo_rot s4 (pl_pc Lf ENegLen) s' l') as (-> & -> & Hzq & Hgb).
              { exact H5. }
-             exists (Err AdminAction). split; [apply finish_ext; reflexivity|]. exists s4. split; [split; assumption|].
-             split; [reflexivity|]. split; [reflexivity|]. exact Hzq.
+             exists (Err AdminAction). split; [apply finish_ext; reflexivity|]. split; [exact Adm|]. exists s4. split; [split; assumption|].
+             split; [reflexivity|]. split; [reflexivity|]. split; [exact Hzq | exact Hgb].
         * destruct (max_pos c <? r_pos c Lf + wrap32 (r_off Lf)) eqn:Emax.
           -- rewrite FLf in S4. destruct (att_end _ _ _ _ _ _ _ _ _ H3 S4) as (_ & -> & ->); [apply res_finish_ne; reflexivity|].
-             exists (Err MaxPositionExceeded). split; [reflexivity|]. exists s1. split; [reflexivity | split; reflexivity].
+             exists (Err MaxPositionExceeded). split; [reflexivity|]. split; [exact Adm|]. exists s1. split; [reflexivity | split; reflexivity].
           -- destruct (att_cont _ _ _ _ _ _ _ _ _ H3 S4 eq_refl) as (_ & H4). clear H3 S4.
-             destruct (solo_rot s1 Lf s' l' H4) as (-> & -> & Hzq).
-             exists (Err AdminAction). split; [apply FLf|]. exists s1. split; [reflexivity|]. split; [reflexivity|]. split; [reflexivity | exact Hzq].
+             destruct (solo_rot s1 Lf s' l' H4) as (-> & -> & Hzq & Hgb).
+             exists (Err AdminAction). split; [apply FLf|]. split; [exact Adm|]. exists s1. split; [reflexivity|]. split; [reflexivity|]. split; [reflexivity|]. split; [exact Hzq | exact Hgb].
       + destruct (att_cont _ _ _ _ _ _ _ _ _ H3 S4 eq_refl) as (_ & H4). clear H3 S4.
         set (l4 := pl_frag Lf PNegLen (f_off Lf) (mlen L) F_BEGIN) in *.
         destruct (solo_frags (Z.to_nat (mlen L)) s1 l4 s' l' H4 eq_refl) as (I1 & I2 & I3 & I4).
@@ -387,7 +395,7 @@ Section Solo.
           change (cur_msg l4) with (cur_msg l) in *. change (p_foff l4) with (f_off Lf) in *. change (p_rem l4) with (mlen L) in *.
           change (p_flags l4) with F_BEGIN in *.
           exists (ok_position c Lf). split; [rewrite I1; unfold l4; rewrite ok_position_frag; apply finish_ext; reflexivity|].
-          split; [reflexivity|]. split; [assumption|]. split; assumption.
+          split; [exact Adm|]. split; [reflexivity|]. split; [assumption|]. split; assumption.
     - destruct (max_pos c <=? r_pos c L + mlen L).
       { rewrite FL in S3. destruct (att_end _ _ _ _ _ _ _ _ _ H2 S3) as (_ & -> & ->); [apply res_finish_ne; reflexivity|]. eauto. }
       destruct (att_cont _ _ _ _ _ _ _ _ _ H2 S3 eq_refl) as (_ & H3). clear H2 S3.
